@@ -26,7 +26,7 @@ Init == l = 1 /\ bad = 0
 Step == /\ l <= Len(Log)
         /\ LET e  == Log[l]
                x  == Exp(e)
-               ok == \A f \in DOMAIN e.fo : Match(e.fo[f], x[f])
+               ok == \A f \in DOMAIN e.fo : MatchU(Ty(e.w, e.s), e.fo[f], x[f])
            IN /\ (IF ok THEN TRUE ELSE PrintT("MISMATCH " \o ToString(e.i) \o " " \o ToJson(x)))
               /\ bad' = bad + (IF ok THEN 0 ELSE 1)
         /\ l' = l + 1
